@@ -10,7 +10,8 @@ EXTENDS BuildProtocol, TLAPS
 
 ASSUME Intended == Shortcut = "intended"
 
-HRecs == [a : {"init", "edit"}, g : Sources] \cup [a : {"prefix"}, p : Prefixes] \cup [a : {"delete", "run"}]
+HRecs == [a : {"init"}, g : Sources, d : {"absent", "empty", "cut"}] \cup [a : {"edit"}, g : Sources]
+         \cup [a : {"prefix"}, p : Prefixes] \cup [a : {"delete", "run"}]
 
 TypeInv == h \in Seq(HRecs) /\ Len(h) >= 1 /\ src \in Sources /\ prefix \in Prefixes
 
@@ -43,7 +44,7 @@ LEMMA ComposeNotAbsent == \A g \in Sources, p \in Prefixes : Compose(g, p) # Abs
 
 LEMMA TypeOK == Spec => []TypeInv
 <1>1. Init => TypeInv
-  BY DEF Init, TypeInv, HRecs, Sources, Valid, Prefixes
+  BY DEF Init, TypeInv, HRecs, Sources, Valid, Prefixes, InitialDest
 <1>2. TypeInv /\ [Next]_vars => TypeInv'
   <2> SUFFICES ASSUME TypeInv, [Next]_vars PROVE TypeInv'
     OBVIOUS
